@@ -16,6 +16,7 @@ import (
 	"runtime"
 	"time"
 
+	"github.com/tjfoc/gmsm/gmtls"
 	"github.com/tjfoc/gmsm/pkcs12"
 	"github.com/tjfoc/gmsm/sm2"
 	"github.com/tjfoc/gmsm/sm4"
@@ -29,6 +30,7 @@ import (
 
 // target is one decoder with its corpus of valid encodings.
 type target struct {
+	hung bool // a call did not return: the goroutine is still spinning, no further inputs are tried on this target
 	name   string
 	corpus [][]byte
 	call   func(in []byte)
@@ -91,6 +93,12 @@ func targets() []target {
 	pemPub, _ := gx509.WritePublicKeyToPem(&k0.PublicKey)
 	pemCert := pem.EncodeToMemory(&pem.Block{Type: "CERTIFICATE", Bytes: certDER})
 	pemCSR := pem.EncodeToMemory(&pem.Block{Type: "CERTIFICATE REQUEST", Bytes: csr})
+	// a bundle as found in the wild: a certificate, a block of another type, a certificate with PEM
+	// headers, text between the blocks, another certificate
+	pemBundle := append(append([]byte{}, pemCert...), pemPub...)
+	pemBundle = append(pemBundle, []byte("subject=/CN=some text between blocks\n")...)
+	pemBundle = append(pemBundle, pem.EncodeToMemory(&pem.Block{Type: "CERTIFICATE", Headers: map[string]string{"Proc-Type": "4,ENCRYPTED"}, Bytes: certDER})...)
+	pemBundle = append(pemBundle, pem.EncodeToMemory(&pem.Block{Type: "CERTIFICATE", Bytes: rsaDER})...)
 	p12, _ := pkcs12.Encode(k0, cert, nil, "pw")
 	ct0, _ := sm2.Encrypt(&k0.PublicKey, []byte("sm2 ciphertext body"), rand.Reader, sm2.C1C3C2)
 	ct1, _ := sm2.Encrypt(&k0.PublicKey, []byte("sm2 ciphertext body"), rand.Reader, sm2.C1C2C3)
@@ -168,6 +176,9 @@ func targets() []target {
 		{name: "x509.ReadPublicKeyFromPem", corpus: [][]byte{pemPub}, call: func(in []byte) { gx509.ReadPublicKeyFromPem(in) }},
 		{name: "x509.ReadCertificateFromPem", corpus: [][]byte{pemCert}, call: func(in []byte) { gx509.ReadCertificateFromPem(in) }},
 		{name: "x509.ReadCertificateRequestFromPem", corpus: [][]byte{pemCSR}, call: func(in []byte) { gx509.ReadCertificateRequestFromPem(in) }},
+		{name: "x509.CertPool.AppendCertsFromPEM", corpus: [][]byte{pemCert, pemBundle}, call: func(in []byte) { gx509.NewCertPool().AppendCertsFromPEM(in) }},
+		{name: "gmtls.X509KeyPair(certificate bytes)", corpus: [][]byte{pemCert, pemBundle}, call: func(in []byte) { gmtls.X509KeyPair(in, pemPriv) }},
+		{name: "gmtls.X509KeyPair(key bytes)", corpus: [][]byte{pemPriv, append(append([]byte{}, pemCert...), pemPriv...)}, call: func(in []byte) { gmtls.X509KeyPair(pemCert, in) }},
 		{name: "x509.ReadPrivateKeyFromHex", corpus: [][]byte{hexPriv}, call: func(in []byte) { gx509.ReadPrivateKeyFromHex(string(in)) }},
 		{name: "x509.ReadPublicKeyFromHex", corpus: [][]byte{hexPub, hexPub[2:]}, call: func(in []byte) {
 			if p, err := gx509.ReadPublicKeyFromHex(string(in)); err == nil {
@@ -367,6 +378,10 @@ func resize(valid []byte, ts []tlv, i int, repl []byte) []byte {
 
 // guardCall runs one decoder call with panic capture, an allocation budget and a watchdog.
 func guardCall(c *harness.Ctx, t *target, kind string, in []byte) {
+	if t.hung {
+		c.Add("inputs_skipped_after_a_hang", 1)
+		return
+	}
 	c.Add("evaluations", 1)
 	c.Distinct("nontrivial", append([]byte(t.name), in...))
 	type res struct {
@@ -423,6 +438,7 @@ func guardCall(c *harness.Ctx, t *target, kind string, in []byte) {
 			return
 		}
 		c.Violate(fmt.Sprintf("hang:%s:%s", t.name, kind), fmt.Sprintf("%s did not return within %v on a %d-byte input (%s)\ninput=%s", t.name, limit, len(in), kind, hex.EncodeToString(clip(in, 400))), nil, hex.EncodeToString(clip(in, 4096)))
+		t.hung = true
 	}
 }
 
